@@ -8,6 +8,7 @@ state) cases; afterwards ordinary calls must still give the pristine-process
 result and the process must still be alive.
 """
 import copy
+import json
 import random
 import re
 import sys
@@ -463,6 +464,7 @@ def run(spec, refs):
     for ci, call in enumerate(spec['calls']):
         optsig = ','.join(sorted((call.get('opts') or {}).keys())) or '-'
         cons = call['inp'].get('c', 'text')
+        st_before = ops.interp_state()
         if deep:
             # resource envelope of the deep stratum: the pinned tree rejects
             # these inputs within a few dozen MB; the address-space cap
@@ -522,6 +524,15 @@ def run(spec, refs):
         base = {'call_index': ci, 'api': call['api'], 'H': H, 'P': P,
                 'construct': cons, 'depth': call['inp'].get('d'),
                 'opts': call.get('opts'), 'state': spec['state']}
+        st_diff = ops.state_diff(st_before, ops.interp_state())
+        if st_diff:
+            viols.append(dict(
+                base, cls='interp-state-leak', changed=st_diff,
+                msg='%s left interpreter-global state changed after ending '
+                    'with %s: %s (e.g. a disabled garbage collector makes '
+                    'every later call leak its token tree until the '
+                    'process dies)' % (call['api'], kind,
+                                       json.dumps(st_diff)[:200])))
         if limit_delta:
             viols.append(dict(
                 base, cls='limit-leak', delta=limit_delta,
